@@ -19,6 +19,7 @@ CHECKS = {
         "legs": [
             {"test": "TestC01", "quick": {"checks": 20000}, "thorough": {"checks": 1600000, "shards": 16}},
             {"test": "TestC01Exhaustive", "kind": "plain", "thorough": True},
+            {"test": "FuzzC01", "kind": "fuzz", "thorough": {"seconds": 90}},
         ],
         "floors": {"slot-displaces-ordinal": 0.10, "negative/extreme/malformed": 0.05},
         "exhaustive_key": "exhaustive_cases",
@@ -77,5 +78,23 @@ CHECKS = {
         "legs": [{"test": "TestC14", "quick": {"checks": 3000}, "thorough": {"checks": 400000, "shards": 16}}],
         "floors": {"parallel-reconcile-with-scaling-work": 0.3},
         "assumptions": COMMON_ASSUMPTIONS,
+    },
+    "C15": {
+        "level": "exploration",
+        "rule": "case = (StatefulSet object constrained only by what manifests/crd.v1.yaml enforces: replicas 0..8 and revisionHistoryLimit >= 0 "
+                "present, selector/template/serviceName present, everything else free - unknown policy/strategy strings, rollingUpdate block absent / "
+                "empty / with partition in {int32 min, negatives, 0..10, int32 max}, empty or invalid selectors, empty templates, claim templates with "
+                "empty/duplicate names, malformed annotations, arbitrary status; with and without client-side defaulting) x (<= 7 pods incl. "
+                "non-canonical and extreme names, nil labels, foreign owners, any phase) x (<= 4 ControllerRevisions with legit or hostile JSON data, "
+                "marker/selector labels, any owner) x (<= 8 steps of reconcile / kubelet-all / permuted-cache reconcile). Oracle: the reconcile "
+                "returns (nil or error) - a recovered panic is a violation, signature = first repo frame. Non-trivial = the object differs from its "
+                "defaulted form or carries a malformed/negative annotation; distinct = distinct case",
+        "legs": [
+            {"test": "TestC15", "quick": {"checks": 8000}, "thorough": {"checks": 800000, "shards": 16}},
+            {"test": "FuzzC15", "kind": "fuzz", "thorough": {"seconds": 180}},
+        ],
+        "floors": {"rollingUpdate-block-without-partition": 0.1, "negative-partition": 0.05, "differs-from-defaulted-form": 0.3},
+        "assumptions": ["replicas <= 8: a multi-GB allocation for replicas near 2^31 is resource exhaustion, not the panic the property is about",
+                        "spec itself is present (an object without spec is not generated)"] + COMMON_ASSUMPTIONS,
     },
 }
